@@ -905,7 +905,7 @@ Proof.
   destruct (afind_split _ _ _ Hs Hf) as (l1 & l2 & El & _ & Hdel & Hnone).
   pose proof (Forall_forall (auc_ok e) (aucs s)) as FF. rewrite FF in Hok.
   pose proof (Hok _ (afind_In _ _ _ Hf)) as Hoka.
-  cbn [delete_auction aucs bal]. rewrite Hf, Hdel.
+  unfold delete_auction. cbn [aucs bal]. rewrite Hdel.
   split; [lia|]. split; [assumption|]. split; [|split].
   - intros t2. cbn [step]. unfold close. cbn [aucs]. rewrite Hnone. reflexivity.
   - intros id' Hne. rewrite El.
@@ -929,7 +929,7 @@ Proof.
   destruct (exec e (bal s) (payout e a)) as [b' []| |]; try discriminate.
   inversion H; subst; clear H. destruct HI as (_ & _ & Hs & _).
   destruct (afind_split _ _ _ Hs Hf) as (l1 & l2 & El & _ & Hdel & Hnone).
-  cbn [delete_auction aucs] in Hx. rewrite Hdel in Hx. split.
+  unfold delete_auction in Hx. cbn [aucs] in Hx. rewrite Hdel in Hx. split.
   - rewrite El. rewrite in_app_iff in *. cbn [In]. tauto.
   - intros E. apply (afind_none_notin _ _ Hnone). rewrite <- E. apply in_map. exact Hx.
 Qed.
@@ -973,4 +973,258 @@ Lemma inv_b_custody e ds s : inv_b e ds s = true ->
 Proof.
   unfold inv_b. rewrite !Bool.andb_true_iff. intros ((((Hc & _) & _) & _) & _) d Hd.
   rewrite forallb_forall in Hc. apply Z.eqb_eq. auto.
+Qed.
+
+(** * reachability from the empty store, and a boolean form of the history guard *)
+
+Lemma Inv_init e b nx : (forall d, b (amod e) d = 0) -> Inv e (mkState b [] [] nx).
+Proof.
+  intros Hb. unfold Inv; cbn [bal aucs idx next_id map]. split; [|split; [|split; [|split]]].
+  - intros d. rewrite Hb. reflexivity.
+  - reflexivity.
+  - constructor.
+  - constructor.
+  - constructor.
+Qed.
+
+Fixpoint guardedb (e : env) (s : state) (ops : list op) : bool :=
+  match ops with
+  | [] => true
+  | o :: r =>
+      (match step e s o with Ok _ _ => op_okb e s o | _ => true end)
+      && guardedb e (step' e s o) r
+  end.
+
+Lemma guardedb_sound e ops : forall s, guardedb e s ops = true -> guarded e s ops.
+Proof.
+  induction ops as [|o r IH]; intros s H; cbn [guardedb guarded] in *; [exact I|].
+  apply Bool.andb_true_iff in H. destruct H as (H1 & H2). split; [|apply IH; assumption].
+  intros s' Hs. rewrite Hs in H1. exact H1.
+Qed.
+
+Theorem reachable_inv e b nx ops :
+  env_wf e -> (forall d, b (amod e) d = 0) ->
+  guarded e (mkState b [] [] nx) ops -> Inv e (run e (mkState b [] [] nx) ops).
+Proof. intros Hwf Hb Hg. apply run_inv; auto. apply Inv_init; assumption. Qed.
+
+(** * the index stays in key order (what the KV store guarantees; it is what makes
+      the range iteration of IterateAuctionsByTime equal to [expired]) *)
+
+Definition key_lt (k1 k2 : Z * Z) : Prop :=
+  fst k1 < fst k2 \/ (fst k1 = fst k2 /\ snd k1 < snd k2).
+
+Definition idx_sorted (l : list (Z * Z)) : Prop := StronglySorted key_lt l.
+
+Lemma key_ltb_lt k h : key_ltb k h = true <-> key_lt k h.
+Proof.
+  unfold key_ltb, key_lt. rewrite Bool.orb_true_iff, Bool.andb_true_iff, !Z.ltb_lt, Z.eqb_eq. tauto.
+Qed.
+
+Lemma key_lt_trans a b c : key_lt a b -> key_lt b c -> key_lt a c.
+Proof. unfold key_lt. lia. Qed.
+
+Lemma key_total k h : key_eqb k h = false -> key_ltb k h = false -> key_lt h k.
+Proof.
+  intros He Hl. unfold key_lt.
+  assert (k <> h) by (intros E; apply key_eqb_eq in E; congruence).
+  assert (~ key_lt k h) by (intros E; apply key_ltb_lt in E; congruence).
+  unfold key_lt in *. destruct k as [a b], h as [c d]; cbn [fst snd] in *.
+  assert (a <> c \/ b <> d) by (destruct (Z.eq_dec a c), (Z.eq_dec b d); subst; auto; congruence). lia.
+Qed.
+
+Lemma idx_insert_in x k l : In x (idx_insert k l) -> x = k \/ In x l.
+Proof.
+  induction l as [|h r IH]; cbn [idx_insert In].
+  - intros [E|[]]; left; congruence.
+  - destruct (key_eqb k h); [cbn [In]; tauto|]. destruct (key_ltb k h); cbn [In].
+    + intros [E|I]; [left; congruence|tauto].
+    + intros [E|I]; [tauto|]. destruct (IH I); tauto.
+Qed.
+
+Lemma idx_remove_in x k l : In x (idx_remove k l) -> In x l.
+Proof.
+  induction l as [|h r IH]; cbn [idx_remove In]; [tauto|].
+  destruct (key_eqb k h); cbn [In]; [tauto|]. intros [E|I]; [tauto|auto].
+Qed.
+
+Lemma idx_insert_sorted k l : idx_sorted l -> idx_sorted (idx_insert k l).
+Proof.
+  unfold idx_sorted. induction l as [|h r IH]; cbn [idx_insert]; intros Hs.
+  - constructor; constructor.
+  - inversion Hs as [|? ? Hs' Hall]; subst.
+    destruct (key_eqb k h) eqn:He; [assumption|].
+    destruct (key_ltb k h) eqn:Hl.
+    + apply key_ltb_lt in Hl. constructor; [assumption|]. constructor; [assumption|].
+      rewrite Forall_forall in *. intros x Hx. eapply key_lt_trans; eauto.
+    + constructor; [auto|]. rewrite Forall_forall in *. intros x Hx.
+      destruct (idx_insert_in _ _ _ Hx) as [->|Hi]; [apply key_total; assumption|auto].
+Qed.
+
+Lemma idx_remove_sorted k l : idx_sorted l -> idx_sorted (idx_remove k l).
+Proof.
+  unfold idx_sorted. induction l as [|h r IH]; cbn [idx_remove]; intros Hs; [constructor|].
+  inversion Hs as [|? ? Hs' Hall]; subst. destruct (key_eqb k h); [assumption|].
+  constructor; [auto|]. rewrite Forall_forall in *. intros x Hx. apply Hall. eapply idx_remove_in; eauto.
+Qed.
+
+Lemma set_auction_sorted s b a : idx_sorted (idx s) -> idx_sorted (idx (set_auction s b a)).
+Proof.
+  intros H. unfold set_auction. cbn [idx]. apply idx_insert_sorted.
+  destruct (afind (a_id a) (aucs s)); [apply idx_remove_sorted|]; assumption.
+Qed.
+
+Lemma close_sorted e s t id s' : idx_sorted (idx s) -> close e s t id = Ok s' tt -> idx_sorted (idx s').
+Proof.
+  intros Hs H. unfold close in H. destruct (afind id (aucs s)) as [a|] eqn:Hf; [|discriminate].
+  destruct (t <? a_end a); [discriminate|].
+  destruct (exec e (bal s) (payout e a)) as [b' []| |]; try discriminate.
+  inversion H; subst. unfold delete_auction. cbn [idx]. rewrite Hf. apply idx_remove_sorted. assumption.
+Qed.
+
+Lemma close_all_sorted e t ids : forall s s', idx_sorted (idx s) -> close_all e s t ids = Ok s' tt -> idx_sorted (idx s').
+Proof.
+  induction ids as [|id r IH]; intros s s' Hs H; cbn [close_all] in H.
+  - inversion H; subst; assumption.
+  - destruct (afind id (aucs s)); [|eauto].
+    destruct (close e s t id) as [s1 []| |] eqn:Hc; try discriminate.
+    eapply IH; [|exact H]. eapply close_sorted; eauto.
+Qed.
+
+Theorem step_sorted e s o s' : idx_sorted (idx s) -> step e s o = Ok s' tt -> idx_sorted (idx s').
+Proof.
+  intros Hs H.
+  assert (Hstart : forall seller a xs, start e s seller a xs = Ok s' tt -> idx_sorted (idx s')).
+  { intros seller a xs H0. unfold start in H0. destruct (negb (is_module e seller)); [discriminate|].
+    destruct (exec e (bal s) xs) as [b' []| |]; try discriminate. inversion H0; subst.
+    unfold store_new. cbn [idx]. apply set_auction_sorted. assumption. }
+  destruct o; cbn [step] in H.
+  - eapply Hstart; eauto.
+  - destruct (negb (is_module e buyer)); [discriminate|]. destruct (negb (minter e buyer)); [discriminate|].
+    eapply Hstart; eauto.
+  - destruct (negb (weights_valid e raddrs rws)); [discriminate|]. eapply Hstart; eauto.
+  - unfold place_bid in H. destruct (afind id (aucs s)) as [a|]; [|discriminate].
+    destruct (a_end a <? t); [discriminate|].
+    destruct (bid_routine e t a bidder d x parts) as [[a' xs] []| |]; try discriminate.
+    destruct (exec e (bal s) xs) as [b' []| |]; try discriminate.
+    inversion H; subst. apply set_auction_sorted. assumption.
+  - eapply close_sorted; eauto.
+  - unfold begin_block in H. eapply close_all_sorted; eauto.
+Qed.
+
+Theorem run_sorted e ops : forall s, idx_sorted (idx s) -> idx_sorted (idx (run e s ops)).
+Proof.
+  induction ops as [|o r IH]; intros s Hs; cbn [run fold_left]; [assumption|].
+  apply IH. unfold step'. destruct (step e s o) as [s' []| |] eqn:E; try assumption.
+  eapply step_sorted; eauto.
+Qed.
+
+(* on an index in key order the entries selected by the begin blocker are a prefix:
+   the range iteration up to the block time visits exactly them, in this order *)
+Lemma expired_prefix t l : idx_sorted l ->
+  exists l1 l2, l = l1 ++ l2 /\ expired t l = map snd l1 /\
+    Forall (fun k => fst k <= t) l1 /\ Forall (fun k => t < fst k) l2.
+Proof.
+  unfold idx_sorted, expired. induction l as [|h r IH]; intros Hs.
+  - exists [], []. repeat split; constructor.
+  - inversion Hs as [|? ? Hs' Hall]; subst. cbn [filter].
+    destruct (Z.leb_spec (fst h) t) as [Hle|Hgt].
+    + destruct (IH Hs') as (l1 & l2 & -> & He & H1 & H2).
+      exists (h :: l1), l2. cbn [map app]. rewrite He. repeat split; auto.
+    + exists [], (h :: r). cbn [app map]. repeat split; try constructor; auto.
+      * assert (Hnone : filter (fun k => fst k <=? t) r = []).
+        { rewrite Forall_forall in Hall. clear - Hall Hgt. induction r as [|x r IH]; [reflexivity|].
+          cbn [filter]. assert (key_lt h x) by (apply Hall; left; reflexivity).
+          destruct (Z.leb_spec (fst x) t); [unfold key_lt in *; lia|]. apply IH. intros y Hy. apply Hall. right. assumption. }
+        rewrite Hnone. reflexivity.
+      * rewrite Forall_forall in *. intros x Hx. specialize (Hall _ Hx). unfold key_lt in Hall. lia.
+Qed.
+
+(** * exact custody means the module can always pay: closing an expired auction
+      never fails for lack of funds *)
+
+Lemma held1_nonneg e d a : auc_ok e a -> 0 <= held1 d a.
+Proof.
+  intros Hok. pose proof (ok_lot _ _ Hok). pose proof (ok_debt _ _ Hok).
+  unfold held1, coin_at. destruct (a_kind a); eqb_cases; lia.
+Qed.
+
+Lemma held_ge e d l a : Forall (auc_ok e) l -> In a l -> held1 d a <= held d l.
+Proof.
+  induction l as [|h r IH]; intros Hf Hi; [destruct Hi|].
+  inversion Hf; subst. rewrite held_cons. destruct Hi as [->|Hi].
+  - assert (0 <= held d r).
+    { clear - H2. induction r as [|x r IH]; [unfold held; cbn; lia|].
+      inversion H2; subst. rewrite held_cons. pose proof (held1_nonneg e d x H1). specialize (IH H3). lia. }
+    lia.
+  - pose proof (held1_nonneg e d h H1). specialize (IH H2 Hi). lia.
+Qed.
+
+Lemma exec1_send_ok e b f t d x :
+  0 <= x -> x <= b f d -> t <> nobody e ->
+  exists b', exec1 e b (XSend f t d x) = Ok b' tt.
+Proof.
+  intros Hx Hb Ht. cbn [exec1].
+  destruct (Z.ltb_spec x 0); [lia|]. destruct (Z.eqb_spec x 0); [eexists; reflexivity|].
+  destruct (Z.ltb_spec (b f d) x); [lia|]. destruct (Nat.eqb_spec t (nobody e)); [congruence|].
+  eexists; reflexivity.
+Qed.
+
+Lemma exec1_sendacc_ok e b f t d x :
+  0 <= x -> x <= b f d -> t <> nobody e -> blocked e t = false ->
+  exists b', exec1 e b (XSendAcc f t d x) = Ok b' tt.
+Proof.
+  intros Hx Hb Ht Hblk. cbn [exec1]. rewrite Hblk.
+  destruct (Z.ltb_spec x 0); [lia|]. destruct (Z.eqb_spec x 0); [eexists; reflexivity|].
+  destruct (Z.ltb_spec (b f d) x); [lia|]. destruct (Nat.eqb_spec t (nobody e)); [congruence|].
+  eexists; reflexivity.
+Qed.
+
+Lemma exec1_mint_ok e b m d x :
+  0 <= x -> minter e m = true ->
+  exec1 e b (XMint m d x) = Ok (upd2 b m d (b m d + x)) tt.
+Proof.
+  intros Hx Hm. cbn [exec1]. destruct (Z.ltb_spec x 0); [lia|]. rewrite Hm. reflexivity.
+Qed.
+
+Theorem close_pays e s t id a :
+  Inv e s -> afind id (aucs s) = Some a -> a_end a <= t ->
+  blocked e (a_bidder a) = false -> a_bidder a <> nobody e -> a_init a <> nobody e ->
+  (a_kind a = KDebt -> minter e (a_init a) = true /\ 0 <= bal s (a_init a) (a_lot_d a)) ->
+  exists s', step e s (Close t id) = Ok s' tt.
+Proof.
+  intros HI Hf Ht Hblk Hnb Hni Hdebt.
+  pose proof (Inv_auc_ok _ _ _ _ HI Hf) as Hok.
+  destruct HI as (Hc & _ & _ & _ & Hall).
+  pose proof (fun d => held_ge e d _ _ Hall (afind_In _ _ _ Hf)) as Hge.
+  pose proof (ok_lot _ _ Hok) as Hl. pose proof (ok_debt _ _ Hok) as Hd.
+  pose proof (ok_init _ _ Hok) as Hi. pose proof (ok_bidder _ _ Hok) as Hb.
+  cbn [step]. unfold close. rewrite Hf. destruct (Z.ltb_spec t (a_end a)); [lia|].
+  enough (exists b', exec e (bal s) (payout e a) = Ok b' tt) as (b' & ->) by (eexists; reflexivity).
+  assert (Hback : forall b, a_debt a <= b (amod e) (a_debt_d a) -> exists b', exec e b (debt_back e a) = Ok b' tt).
+  { intros b Hbb. unfold debt_back. destruct (Z.ltb_spec 0 (a_debt a)); [|eexists; reflexivity].
+    cbn [exec]. destruct (exec1_send_ok e b (amod e) (a_init a) (a_debt_d a) (a_debt a)) as (b1 & ->); try lia; auto.
+    eexists; reflexivity. }
+  unfold payout. destruct (a_kind a) eqn:Hk.
+  - pose proof (Hge (a_lot_d a)) as G. unfold held1 in G. rewrite Hk in G. unfold coin_at in G. rewrite Nat.eqb_refl in G.
+    cbn [exec].
+    destruct (exec1_sendacc_ok e (bal s) (amod e) (a_bidder a) (a_lot_d a) (a_lot a)) as (b1 & ->); auto.
+    { rewrite Hc. lia. } eexists; reflexivity.
+  - destruct (Hdebt eq_refl) as (Hmint & Hbi).
+    cbn [app exec]. rewrite (exec1_mint_ok _ _ _ _ _ Hl Hmint).
+    set (b1 := upd2 (bal s) (a_init a) (a_lot_d a) (bal s (a_init a) (a_lot_d a) + a_lot a)).
+    assert (E1 : b1 (a_init a) (a_lot_d a) = bal s (a_init a) (a_lot_d a) + a_lot a).
+    { unfold b1. rewrite upd2_spec, !Nat.eqb_refl. reflexivity. }
+    destruct (exec1_sendacc_ok e b1 (a_init a) (a_bidder a) (a_lot_d a) (a_lot a)) as (b2 & E2); auto; [lia|].
+    rewrite E2.
+    apply Hback. rewrite (exec1_net _ _ _ _ E2). unfold b1. rewrite upd2_spec.
+    destruct (Nat.eqb_spec (amod e) (a_init a)); [congruence|]. cbn [andb net1].
+    pose proof (Hge (a_debt_d a)) as G. unfold held1 in G. rewrite Hk in G. unfold coin_at in G. rewrite Nat.eqb_refl in G.
+    rewrite Hc. eqb_cases; lia.
+  - cbn [app exec].
+    pose proof (Hge (a_lot_d a)) as G1. pose proof (Hge (a_debt_d a)) as G2.
+    unfold held1 in G1, G2. rewrite Hk in G1, G2. unfold coin_at in G1, G2. rewrite Nat.eqb_refl in G1, G2.
+    destruct (exec1_sendacc_ok e (bal s) (amod e) (a_bidder a) (a_lot_d a) (a_lot a)) as (b1 & E1); auto.
+    { rewrite Hc. revert G1. eqb_cases; lia. }
+    rewrite E1. apply Hback.
+    rewrite (exec1_net _ _ _ _ E1). cbn [net1]. rewrite Hc. revert G1 G2. eqb_cases; lia.
 Qed.
